@@ -4,7 +4,7 @@ use crate::abnf::Prod;
 use crate::ctx::{Case, Ctx};
 use crate::{both_families, gen};
 
-pub const RULE: &str = "cases: all paths over the segment alphabet {'', ., .., a, a:b, e-acute, %2e, %2E%2e} up to a segment bound x {absolute, relative} (exhaustive), random paths up to 40 segments / 2 KiB (beyond the 16-segment and 512-byte inline buffers); for each: normalized_segments() (items, len), normalized() (+ idempotence), PathBuf::normalize() (+ idempotence) and path_mut().normalize() inside every compatible enclosing reference shape (with/without scheme, authority, query/fragment; RiRefBuf and RiBuf), compared with the left-to-right stack model and its 5.2.4 rendering modulo the permitted '.' shield. Non-trivial = path containing at least one dot segment; distinct by path text";
+pub const RULE: &str = "cases: all paths over the segment alphabet {'', ., .., a, a:b, e-acute, %2e, %2E%2e} up to a segment bound x {absolute, relative} (exhaustive), random paths up to 40 segments / 2 KiB (beyond the 16-segment and 512-byte inline buffers); for each: normalized_segments() (items, len), normalized() (+ idempotence), PathBuf::normalize() (+ idempotence) and path_mut().normalize() inside every compatible enclosing reference shape (with/without scheme, authority, query/fragment; RiRefBuf and RiBuf), compared with the left-to-right stack model and its 5.2.4 rendering modulo the permitted '.' shield. The normalised iterator is additionally driven from both ends (with its exact-size count) and through adaptor programs (nth, nth_back, folds, finds ...). Non-trivial = path containing at least one dot segment; distinct by path text";
 
 pub const MANDATORY: &[&str] = &["path:absolute", "path:relative", "nsegs:0-6", "nsegs:7-16", "nsegs:17+", "len:513+", "has:dotdot", "has:empty", "norm-first:needs-shield", "embedded:----", "embedded:S---", "embedded:-A--", "embedded:SA--"];
 
